@@ -49,7 +49,9 @@ if mode == "pure":
     assert os.environ.get("AUTOBAHN_USE_NVX") == "0"
     import autobahn.websocket as aw
     from autobahn.websocket import utf8validator as u8
-    assert aw.USES_NVX is False
+    import autobahn
+    out["autobahn_file"] = autobahn.__file__
+    out["uses_nvx"] = bool(aw.USES_NVX)
     out["selected"] = u8.Utf8Validator.__module__
     out["table"] = list(u8.UTF8VALIDATOR_DFA)
     out["consts"] = [u8.UTF8_ACCEPT, u8.UTF8_REJECT]
@@ -62,6 +64,8 @@ else:
     import autobahn.websocket as aw
     from autobahn.websocket import utf8validator as u8
     from autobahn.nvx import _utf8validator as wrap
+    import autobahn
+    out["autobahn_file"] = autobahn.__file__
     out["selected"] = u8.Utf8Validator.__module__
     out["uses_nvx"] = bool(aw.USES_NVX)
     lib, ffi = nx.lib, nx.ffi
